@@ -3,3 +3,7 @@ import FontcProps.C07
 import FontcProps.C05
 import FontcProps.C14
 import FontcProps.C17
+import FontcProps.C09
+import FontcProps.C13
+import FontcProps.C03
+import FontcProps.C04
